@@ -124,6 +124,7 @@ def gen(rng, tier, idx):
             c = c01.gen_base(rng, tier, idx)
             c['mgr'] = 'handler'
         c['kind'] = 'minmax'
+        c['partly_real'] = rng.random() < 0.4
         c['ops'] = []
         if c['dtype'] == 'int64':
             c['dtype'] = 'float64'      # Grid holds real or complex fields only
@@ -348,6 +349,11 @@ def run_minmax(case, tape):
             h = c01.build_handler(comm, case)
         eta = [np.arange(n, dtype=float) for n in shape]
         G = cm.global_array(shape, case['dtype'], salt=5)
+        if case.get('partly_real') and G.dtype.kind == 'c':
+            # a complex field whose imaginary part vanishes exactly on part of the domain (a density right after the
+            # v integral, a potential that is real on some ranks): what is sent must follow the dtype, not the values
+            G = G.copy()
+            G.imag[:max(1, shape[0] // 2)] = 0.0
         grid = Grid(eta, [], h, names[0], comm, dtype=dt)
         grid.getAllData()[:] = cm.local(G, h.getLayout(names[0]))
         out = []
